@@ -294,10 +294,11 @@ class CSSImportRule(cssrule.CSSRule):
                 # use cwd instead
                 parentHref = cssutils.helper.path2url(os.getcwd()) + '/'
 
-            fullhref = urllib.parse.urljoin(parentHref, self.href)
-
             # all possible exceptions are ignored
             try:
+                # may raise ValueError, e.g. for "http://[x"
+                fullhref = urllib.parse.urljoin(parentHref, self.href)
+
                 # a sheet importing itself, directly or through other sheets,
                 # would be loaded and parsed again without end
                 sheet = self.parentStyleSheet
